@@ -584,3 +584,9 @@ mod tests {
         assert!(vring.get_ref().err.is_none());
     }
 }
+
+// Verification harnesses (Kani); the sources live outside this repository.
+#[cfg(feature = "verif")]
+mod verif {
+    include!(concat!(env!("VHOST_VERIF_DIR"), "/harness/vub_vring.rs"));
+}
